@@ -1,0 +1,14 @@
+//go:build verif
+
+// Contracts for contract-based verification (/verif). Comment-only: with or without the
+// build tag "verif" this file adds nothing to the compiled package.
+
+package fatalerror
+
+// C20: an error type is passed on only if it has exactly the form Runtime.X / Function.X, X a capitalised word.
+//@ func GetValidRuntimeOrFunctionErrorType
+//@   modifies nothing
+//@   ensures [exact-form] r0 == errorType ==> inre(errorType, "^(Runtime|Function)\\.[A-Z][a-zA-Z]*$")
+//@   ensures [fallback-function] r0 != errorType && hasprefix(errorType, "Function.") ==> r0 == FunctionUnknown
+//@   ensures [fallback-runtime] r0 != errorType && !hasprefix(errorType, "Function.") ==> r0 == RuntimeUnknown
+//@   ensures [well-formed-passes] inre(errorType, "^(Runtime|Function)\\.[A-Z][a-zA-Z]+$") ==> r0 == errorType
